@@ -25,6 +25,10 @@ pub struct Case {
   pub legacy_snippet: bool,
   /// other documents in the index (so the hit is found among others)
   pub others: Vec<String>,
+  /// 0 = only `body` is highlighted; otherwise a second, optional field `abstract` (sorting before
+  /// `body`) is requested with other options: bit 0 = the target document has it, rest = option selector
+  #[serde(default)]
+  pub second: u8,
 }
 
 pub struct C21;
@@ -48,7 +52,10 @@ fn schema(analyzer: &str) -> SchemaSpec {
   SchemaSpec {
     doc_id_field: "_id".into(),
     analyzers,
-    text: vec![TextSpec { name: "body".into(), analyzer: analyzer.into(), search_analyzer: None, stored: true, indexed: true, nullable: false, saty: None }],
+    text: vec![
+      TextSpec { name: "abstract".into(), analyzer: analyzer.into(), search_analyzer: None, stored: true, indexed: true, nullable: false, saty: None },
+      TextSpec { name: "body".into(), analyzer: analyzer.into(), search_analyzer: None, stored: true, indexed: true, nullable: false, saty: None },
+    ],
     keyword: vec![],
     numeric: vec![],
     nested: vec![],
@@ -106,8 +113,9 @@ impl Property for C21 {
       select(vec![("<em>", "</em>"), ("[[", "]]"), ("<b>", "</b>"), ("{", "}"), ("<<", ">>")]),
       prop::bool::weighted(0.3),
       vec(select(vec!["rust fox", "nothing here", "café 東京 search", "the the the"]).prop_map(|s| s.to_string()), 0..4),
+      prop_oneof![1 => Just(0u8), 2 => 1u8..=255],
     )
-      .prop_map(|(analyzer, words, lead, picks, shape, fragment_slack, number_of_fragments, tags, legacy_snippet, others)| Case {
+      .prop_map(|(analyzer, words, lead, picks, shape, fragment_slack, number_of_fragments, tags, legacy_snippet, others, second)| Case {
         analyzer: analyzer.to_string(),
         words,
         lead,
@@ -118,6 +126,7 @@ impl Property for C21 {
         tags: (tags.0.to_string(), tags.1.to_string()),
         legacy_snippet,
         others,
+        second,
       })
       .boxed()
   }
@@ -207,9 +216,17 @@ impl Property for C21 {
     let build = || -> anyhow::Result<()> {
       let mut w = idx.writer()?;
       for (i, o) in case.others.iter().enumerate() {
-        w.add_document(&sut::document(&json!({"_id": format!("o{i}"), "body": o})))?;
+        let mut d = json!({"_id": format!("o{i}"), "body": o});
+        if case.second != 0 && i % 2 == 1 {
+          d["abstract"] = json!(format!("abstract: {o}"));
+        }
+        w.add_document(&sut::document(&d))?;
       }
-      w.add_document(&sut::document(&json!({"_id": "target", "body": text})))?;
+      let mut d = json!({"_id": "target", "body": text});
+      if case.second & 1 == 1 {
+        d["abstract"] = json!(format!("note: {text}"));
+      }
+      w.add_document(&sut::document(&d))?;
       w.commit()?;
       Ok(())
     };
@@ -226,6 +243,14 @@ impl Property for C21 {
     };
     let mut req = json!({"query": query, "limit": 10, "execution": "bm25", "return_stored": true,
       "highlight": {"fields": {"body": {"pre_tag": pre, "post_tag": post, "fragment_size": fragment_size, "number_of_fragments": case.number_of_fragments}}}});
+    // options of the second field differ in every respect
+    let (pre2, post2) = ("<a>".to_string(), "</a>".to_string());
+    let size2 = fragment_size + 37;
+    let nfrag2 = 1 + (case.second as usize >> 1) % 3;
+    if case.second != 0 {
+      req["highlight"]["fields"]["abstract"] = json!({"pre_tag": pre2, "post_tag": post2, "fragment_size": size2, "number_of_fragments": nfrag2});
+      out.class("two-fields-requested");
+    }
     if case.legacy_snippet {
       req["highlight_field"] = json!("body");
     }
@@ -240,11 +265,20 @@ impl Property for C21 {
     let multibyte_before = text[..spans[first_word].0].chars().any(|c| c.len_utf8() > 1);
     let mut saw_fragment = false;
     for h in res.hits.iter() {
-      let stored = h.fields.as_ref().and_then(|f| f.get("body")).and_then(|b| b.as_str().map(|s| s.to_string()).or_else(|| b.get(0).and_then(|x| x.as_str()).map(|s| s.to_string()))).unwrap_or_default();
-      let ctxt = || format!("doc {} stored text {:?}; query {}; pre {:?} post {:?} fragment_size {} number_of_fragments {} analyzer {}", h.doc_id, stored, query, pre, post, fragment_size, case.number_of_fragments, case.analyzer);
+      let stored_of = |name: &str| h.fields.as_ref().and_then(|f| f.get(name)).and_then(|b| b.as_str().map(|s| s.to_string()).or_else(|| b.get(0).and_then(|x| x.as_str()).map(|s| s.to_string()))).unwrap_or_default();
+      let body_stored = stored_of("body");
       if let Some(hl) = &h.highlights {
         for (field, frags) in hl.iter() {
-          if frags.len() > case.number_of_fragments {
+          // each field is judged against the options requested for that field
+          let second_field = field == "abstract";
+          let stored = if second_field { stored_of("abstract") } else { body_stored.clone() };
+          let (pre, post, fragment_size, number_of_fragments) = if second_field { (&pre2, &post2, size2, nfrag2) } else { (pre, post, fragment_size, case.number_of_fragments) };
+          let ctxt = || format!("doc {} field {field} stored text {:?}; query {}; pre {:?} post {:?} fragment_size {} number_of_fragments {} analyzer {}; fields requested: {}", h.doc_id, stored, query, pre, post, fragment_size, number_of_fragments, case.analyzer, if case.second != 0 { "abstract and body" } else { "body" });
+          if second_field && case.second == 0 {
+            out.fail("highlight-for-a-field-not-requested", format!("{frags:?}; {}", ctxt()));
+            return out;
+          }
+          if frags.len() > number_of_fragments {
             out.fail("too-many-fragments", format!("{} fragments for field {field}: {frags:?}; {}", frags.len(), ctxt()));
             return out;
           }
@@ -272,6 +306,8 @@ impl Property for C21 {
       }
       if let Some(sn) = &h.snippet {
         saw_fragment = true;
+        let stored = body_stored.clone();
+        let ctxt = || format!("doc {} legacy snippet of body, stored text {:?}; query {}; analyzer {}", h.doc_id, stored, query, case.analyzer);
         // legacy snippet: tags "**", fragment size 120
         if sn.is_empty() {
           out.fail("empty-snippet", ctxt());
